@@ -1,8 +1,7 @@
 // Trusted stand-ins used by ValidGrammar::from_grammar (the glue between the passes):
 //  * four callees that are not under a contract of their own here and are entered with an assumed
 //    one: is_valid_command_name (Kani: C08.is_valid_command_name.*), stable_dedup_by (keeps the first
-//    element, drops only elements), get_nonterminals_resolution_order (its search procedure is unit
-//    c08; assumed here: the order only names defined nonterminals), check_subword_spaces (no effect
+//    element, drops only elements), check_subword_spaces (no effect
 //    on the arena: it takes it by shared reference);
 //  * Grammar::iter_call_variants (a `filter_map` returning `impl Iterator`): the call variants in order;
 //  * UstrMap helpers: the vector of keys, `retain(|k, _| !other.contains_key(k))`, `is_empty`;
@@ -45,13 +44,6 @@ pub fn __map_retain_not_in<V, W>(m: &mut UstrMap<V>, other: &UstrMap<W>)
         forall|k: Ustr| #[trigger] final(m)@.contains_key(k) ==> final(m)@[k] == old(m)@[k],
 { unimplemented!() }
 
-impl<V> UstrMap<V> {
-    #[verifier::external_body]
-    pub fn is_empty(&self) -> (r: bool)
-        ensures r == (forall|k: Ustr| !self@.contains_key(k))
-    { unimplemented!() }
-}
-
 impl Clone for NontermDefn {
     #[verifier::external_body]
     fn clone(&self) -> (r: NontermDefn)
@@ -77,13 +69,6 @@ pub fn stable_dedup_by<T, F: Fn(&T) -> D, D: std::hash::Hash + Eq + Copy>(f: F, 
         final(v)@.len() <= old(v)@.len(),
         old(v)@.len() >= 1 ==> final(v)@.len() >= 1 && final(v)@[0] == old(v)@[0],
         forall|i: int| 0 <= i < final(v)@.len() ==> old(v)@.contains(#[trigger] final(v)@[i]),
-{ unimplemented!() }
-
-#[verifier::external_body]
-pub fn get_nonterminals_resolution_order(arena: &[Expr], nonterminal_definitions: &UstrMap<NontermDefn>) -> (r: Result<Vec<Ustr>>)
-    ensures
-        r is Ok ==> (forall|i: int| 0 <= i < (r->Ok_0)@.len() ==> nonterminal_definitions@.contains_key(#[trigger] (r->Ok_0)@[i])),
-        r is Err ==> r->Err_0 is NonterminalDefinitionsCycle,
 { unimplemented!() }
 
 #[verifier::external_body]
